@@ -241,11 +241,20 @@ class Flow:
             nm = _Norm(self, s, fr)
             nm.poly(x)
             sites += nm.modular
-            for y in tu.walk(x):
+            stack = [x]
+            while stack:
+                y = stack.pop()
+                if not isinstance(y, dict):
+                    continue
+                if y.get('kind') in CALLS and y is not x:
+                    continue            # a call result is an opaque value; its arguments were examined at the call
+                if y.get('kind') in CALLS and y is x and x is not n:
+                    continue
                 if y.get('kind') == 'DeclRefExpr':
                     iid = s.get(('init', fr.key, y.get('referencedDecl', {}).get('id')))
                     if iid is not None:
                         todo.append(tu.node(iid))
+                stack.extend(y.get('inner', ()))
         return sites
 
     def cast_val(self, n, v, s, fr):
